@@ -37,7 +37,7 @@ type c19Scenario struct {
 }
 
 var c19Endings = []string{"served", "served", "served", "served-hints", "served-head", "served-buffered", "404", "redirect", "tls-503", "paused-504", "stopped-503", "bounced-503", "bounced-504", "bounced-200",
-	"target-502", "target-504", "target-truncated", "413", "500-overflow", "abort-waiting", "abort-waiting-buffered", "abort-download", "abort-upload", "upgrade"}
+	"target-502", "target-504", "target-truncated", "413", "500-overflow", "abort-waiting", "abort-waiting-buffered", "abort-held", "abort-download", "abort-upload", "upgrade"}
 
 func c19Gen(rng *rand.Rand, idx int) c19Scenario {
 	sc := c19Scenario{Idx: idx}
@@ -79,6 +79,9 @@ func c19Gen(rng *rand.Rand, idx int) c19Scenario {
 			r.Host = "pz.example"
 		case "stopped-503":
 			r.Host = "st.example"
+		case "abort-held":
+			// held by a pause; the client gives up while it is held; the service is resumed later
+			r.Host = "bn.example"
 		case "bounced-200":
 			// passes the gate of a running service; a pause begins and its drain is still waiting for
 			// a slower request when this one tries to claim a target: it is turned away, goes back to
@@ -269,6 +272,18 @@ func c19Run(t *testing.T, run *Run, sc c19Scenario) {
 			}
 			time.Sleep(100 * time.Millisecond)
 			outs[r.ID] = outcome{status: -1}
+		case "abort-held":
+			hsvc := "bn"
+			if sub := svcFor(r.Host, r.Path); sub != "" {
+				hsvc = sub
+			}
+			w.Pause(hsvc, time.Second, 100*time.Second)
+			req.AbortAfter = time.Second
+			t0 := w.Now()
+			w.At(t0+3*time.Second, func() { w.Resume(hsvc) })
+			w.Do(req)
+			outs[r.ID] = outcome{status: -1}
+			w.Wait()
 		case "bounced-200":
 			w.SetReqDelay(r.ID, "service.gate.passed", 2*time.Second)
 			t0 := w.Now()
@@ -366,7 +381,7 @@ func c19Run(t *testing.T, run *Run, sc c19Scenario) {
 				fail("target-field:"+r.Ending, "request %s was served by %s but the record says target=%q", r.ID, tgt, str(rec, "target"))
 				return
 			}
-		case r.Ending == "413" || r.Ending == "target-502" || r.Ending == "target-504" || r.Ending == "abort-upload":
+		case r.Ending == "413" || r.Ending == "target-502" || r.Ending == "target-504" || r.Ending == "abort-upload" || r.Ending == "abort-held":
 			// claimed for a target that was never (successfully) contacted: empty or that target
 			if t := str(rec, "target"); t != "" && !strings.HasPrefix(t, strings.TrimSuffix(wantSvc, "redir")) && t != "flt:80" {
 				fail("target-field:"+r.Ending, "request %s reached no target but the record names %q", r.ID, t)
@@ -379,6 +394,11 @@ func c19Run(t *testing.T, run *Run, sc c19Scenario) {
 			}
 		}
 		switch r.Ending {
+		case "abort-held":
+			if num(rec, "status") != 499 {
+				fail("abort-status:held", "client of %s went away while the request was held by a pause (the service was resumed two seconds later); record status=%d, expected 499", r.ID, num(rec, "status"))
+				return
+			}
 		case "abort-waiting", "abort-waiting-buffered":
 			if num(rec, "status") != 499 {
 				fail("abort-status", "client of %s went away while the target was working; record status=%d, expected 499", r.ID, num(rec, "status"))
